@@ -10,7 +10,14 @@ from commonroad.geometry.shape import Rectangle
 from commonroad.scenario.intersection import Intersection, IntersectionIncomingElement
 from commonroad.scenario.lanelet import Lanelet, LaneletNetwork
 from commonroad.scenario.scenario import Scenario
-from contracts.c09 import distinct, mk_light, mk_sign, new_id, same_members
+from contracts.c09 import distinct, mk_light, mk_sign, same_members
+
+
+def new_id(F, name):
+    v = F.int(name)
+    F.assume(T(v) >= 0)  # 0 is a valid lanelet id
+    return v
+
 from pyvc.contract import B, CACHE_ATTRS, Contract, R, T, conj, deep_eq, disj, register
 
 LN = "commonroad.scenario.lanelet.LaneletNetwork."
@@ -114,6 +121,8 @@ def minus(old, removed):
 def frame(F, net, before, removed_lanelets, removed_signs, removed_lights, expect_present):
     """every remaining lanelet keeps its relations minus the removed ids; non-id content unchanged"""
     conds = []
+    flags_before = before.get("__flags__", {}) if isinstance(before, dict) else {}
+    before = {k: v for k, v in before.items() if k != "__flags__"}
     now = {id(la): la for la in F.items(F.attr(net, "lanelets"))}
     for key, (la_obj, rel_before, geo_before) in before.items():
         present = id(la_obj) in now
@@ -125,11 +134,19 @@ def frame(F, net, before, removed_lanelets, removed_signs, removed_lights, expec
             removed = removed_lanelets if name in ("pred", "succ", "adj_left", "adj_right") else (removed_signs if "sign" in name else removed_lights)
             conds.append(minus(old, removed)(rel_now.get(name, [])))
         conds.append(deep_eq(geo_before, F.attr(la_obj, "center_vertices"), F))
+        # direction flags of adjacencies that remain are unchanged
+        for side in ("left", "right"):
+            adj_before = rel_before["adj_" + side]
+            if adj_before:
+                stays = conj(T(adj_before[0]) != T(r) for r in removed_lanelets)
+                conds.append(z3.Implies(stays, z3.BoolVal(F.attr(la_obj, "adj_%s_same_direction" % side) == flags_before[key][side])))
     return conj(conds)
 
 
 def snapshot_lanelets(F, la):
-    return {k: (v, relations(F, v), F.snapshot(F.attr(v, "center_vertices"))) for k, v in la.items()}
+    d = {k: (v, relations(F, v), F.snapshot(F.attr(v, "center_vertices"))) for k, v in la.items()}
+    d["__flags__"] = {k: {"left": F.attr(v, "adj_left_same_direction"), "right": F.attr(v, "adj_right_same_direction")} for k, v in la.items()}
+    return d
 
 
 @register
@@ -156,6 +173,33 @@ class RemoveLanelet(Contract):
             ex = existing(F, net)
             yield ("signs, lights and the intersection are untouched", z3.And(same_members(ex["sign"], inp["signs"]), same_members(ex["light"], inp["lights"]),
                                                                                z3.BoolVal(len(F.items(F.attr(net, "intersections"))) == 1)))
+
+
+@register
+class RemoveTwoLanelets(Contract):
+    prop = "C10"
+    target = LN + "remove_lanelet"
+    case = "two removals in sequence"
+    unroll = UNROLL
+    budget_s = 400
+    describe = "after removing lanelets x and then y: no dangling reference; remaining lanelets keep all relations minus {x, y}"
+
+    def build(self, F):
+        net, ids, la = template(F)
+        x, y = new_id(F, "x"), new_id(F, "y")
+        return {"net": net, "ids": ids, "la": la, "x": x, "y": y, "args": [], "before": snapshot_lanelets(F, la)}
+
+    def invoke(self, F, inp):
+        F.method(inp["net"], "remove_lanelet", inp["x"])
+        F.method(inp["net"], "remove_lanelet", inp["y"])
+
+    def post(self, F, inp, out):
+        yield ("raises nothing", out.exc is None)
+        if out.exc is None:
+            net, x, y = inp["net"], inp["x"], inp["y"]
+            yield ("no remaining element refers to a removed id", no_dangling(F, net))
+            expect = {k: z3.And(T(inp["ids"][k]) != T(x), T(inp["ids"][k]) != T(y)) for k in inp["la"]}
+            yield ("remaining lanelets: relations == old relations minus {x, y}; exactly x and y removed", frame(F, net, inp["before"], [x, y], [], [], expect))
 
 
 for _kind, _meth in (("sign", "remove_traffic_sign"), ("light", "remove_traffic_light")):
@@ -266,7 +310,7 @@ class CutOutByLaneletList(Contract):
             lan_refs = [r for kind, r in refs_of(F, new) if kind == "lanelet"]
             yield ("no lanelet reference to an excluded lanelet", conj(disj(T(r) == T(e) for e in ex["lanelet"]) for r in lan_refs))
             yield ("original network not modified", conj(conj(same_members(relations(F, v)[n], old) if old or relations(F, v)[n] else True
-                                                              for n, old in rel.items()) for k, (v, rel, geo) in inp["before"].items()))
+                                                              for n, old in rel.items()) for k, (v, rel, geo) in ((kk, vv) for kk, vv in inp["before"].items() if kk != "__flags__")))
 
 
 @register
